@@ -72,6 +72,7 @@ type Ctx struct {
 	maxViol  int
 	Only     string
 	scens    []Scenario
+	sigCount map[string]int
 }
 
 // Init parses the common flags.
@@ -155,14 +156,21 @@ func (c *Ctx) StateStr(s string) {
 	c.states[h.Sum64()] = struct{}{}
 }
 
+// Violate records a violation. At most 3 are kept per signature, and violations of an already recorded
+// signature do not count towards the stop limit, so a known finding cannot starve the rest of the search.
 func (c *Ctx) Violate(v Violation) {
 	v.Property = c.Property
-	if len(c.Res.Violations) < c.maxViol {
+	if c.sigCount == nil {
+		c.sigCount = map[string]int{}
+	}
+	c.sigCount[v.Signature]++
+	c.Count("violating_cases_total", 1)
+	if c.sigCount[v.Signature] <= 3 {
 		c.Res.Violations = append(c.Res.Violations, v)
 	}
 }
 
-func (c *Ctx) TooManyViolations() bool { return len(c.Res.Violations) >= c.maxViol }
+func (c *Ctx) TooManyViolations() bool { return len(c.sigCount) >= c.maxViol }
 
 func (c *Ctx) Infra(msg string) { c.Res.Infra = append(c.Res.Infra, msg) }
 
@@ -249,6 +257,9 @@ func (c *Ctx) Journal(name string, cs any) {
 // still kill the process; see Journal). A case that does not return within timeout is reported as a hang
 // violation and ends this worker at once (the stuck goroutines cannot be recovered).
 func (c *Ctx) Guard(name string, cs any, timeout time.Duration, f func() error) (err error) {
+	if os.Getenv("VERIF_NOGUARD") != "" {
+		return f() // debugging aid: let a panic crash the process with its stack trace
+	}
 	done := make(chan error, 1)
 	go func() {
 		defer func() {
